@@ -260,6 +260,14 @@ fn generate(rng: &mut Rng) -> ConnScenario {
         strategy: Script::always(Some(0), StratRes::First),
         ..Default::default()
     };
+    // plain-text messages (not JSON components), some beginning like something else
+    let mut services = services;
+    if rng.chance(1, 4) {
+        let lead = *rng.pick(&["", "[Passage] ", "[", "\"q\" ", "7 ", "\u{a7}c"]);
+        let t = services.localization.messages.get_mut("en").expect("default table");
+        t.insert("disconnect_no_target".into(), format!("{lead}nowhere to go"));
+        t.insert("disconnect_timeout".into(), format!("{lead}too slow"));
+    }
     // the legal script for this intent
     // (some host names make the handshake frame 254 / 382 / 510 bytes long: its length prefix then starts with 0xFE, 0xFE 0x02 ...)
     let host: String = if rng.chance(1, 10) { "h".repeat(*rng.pick(&[246usize, 374, 502, 118, 119])) } else { "mc.example.org".into() };
